@@ -351,7 +351,7 @@ func TestVfC10BadConfig(t *testing.T) {
 			if err := yaml.Unmarshal([]byte(cfg.YAML()), &tree); err != nil {
 				t.Fatalf("yaml: %v", err)
 			}
-			path := rapid.SampledFrom([]string{"", "servers", "servers.tls?", "upstreams", "domain_sets", "rules", "cache", "limiter", "limiter.client", "log", "ecs"}).Draw(t, "path")
+			path := rapid.SampledFrom([]string{"", "servers", "servers.tls?", "servers.tcp?", "servers.udp?", "servers.http?", "servers.quic?", "servers.socket?", "upstreams", "upstreams.tls?", "upstreams.socket?", "domain_sets", "rules", "cache", "limiter", "limiter.client", "log", "ecs", "metrics", "addons"}).Draw(t, "path")
 			key := rapid.SampledFrom([]string{"bogus", "forwards", "Tag", "listen_addr", "ttl"}).Draw(t, "key")
 			node := any(tree)
 			for _, seg := range strings.Split(path, ".") {
